@@ -3,6 +3,11 @@
 From Coq Require Import List NArith Bool Sorted.
 From V.gen Require Consts.
 From V.Ts Require Import Model Proofs Answers Extra Exact Multi MultiProofs Report ReportProofs ReportDead ReportDeadProofs.
+From V.Mgr Require Model.
+From V.C06 Require Compose08.
+From V.Link Require C06_C08.
+From V.C07 Require Model Compose.
+From V.Link Require C07_C06.
 Import ListNotations.
 Open Scope N_scope.
 
@@ -510,3 +515,95 @@ Example C08_wrap_nonvacuous :
   ret_ids (concat (run (init true 1000 (ID_MOD - 2)) tr)) = [ID_MOD - 2; ID_MOD - 1; 1] /\
   s_next (final (init true 1000 (ID_MOD - 2)) tr) = 2.
 Proof. vm_compute. split; reflexivity. Qed.
+
+(* ---- under the manager (coq/Link/C06_C08.v): the `feasible 2` hypothesis of the theorems above is
+   discharged for a service whose connection events are the reports of a history of the composed
+   system manager + protocol reports of coq/C06/Compose08.v (C06_provides_C08_feasible). What is
+   left: `xtrace` (the manager's environment, and the order between reports and manager events) and `feasible_rest`, the cap-independent
+   part of the assumption (substream notifications for open connections, answers for opens in
+   flight: the connection task's side). ---- *)
+Theorem C08_stream_wellformed_under_manager :
+  forall (L : V.Mgr.Model.limits) (xs : list V.C06.Compose08.xev) tr ka T n0 q,
+  V.C06.Compose08.xtrace L V.C06.Compose08.x0 xs ->
+  filter V.C06.Compose08.is_conn (map snd tr) = V.C06.Compose08.xproj xs ->
+  V.C06.Compose08.feasible_rest env0 (init ka T n0) tr = true ->
+  exists b, wf_run false (pevs q (concat (run (init ka T n0) tr))) = Some b.
+Proof. intros L xs tr ka T n0 q HX HP HR. exact (V.Link.C06_C08.stream_wellformed_under_manager L xs tr ka T n0 HX HP HR q). Qed.
+Print Assumptions C08_stream_wellformed_under_manager.
+
+Theorem C08_alternation_under_manager :
+  forall (L : V.Mgr.Model.limits) (xs : list V.C06.Compose08.xev) tr ka T n0 q,
+  V.C06.Compose08.xtrace L V.C06.Compose08.x0 xs ->
+  filter V.C06.Compose08.is_conn (map snd tr) = V.C06.Compose08.xproj xs ->
+  V.C06.Compose08.feasible_rest env0 (init ka T n0) tr = true ->
+  alternates false (conn_evs q (concat (run (init ka T n0) tr))).
+Proof. intros L xs tr ka T n0 q HX HP HR. exact (V.Link.C06_C08.alternation_under_manager L xs tr ka T n0 HX HP HR q). Qed.
+Print Assumptions C08_alternation_under_manager.
+
+Theorem C08_no_panic_under_manager :
+  forall (L : V.Mgr.Model.limits) (xs : list V.C06.Compose08.xev) tr ka T n0,
+  V.C06.Compose08.xtrace L V.C06.Compose08.x0 xs ->
+  filter V.C06.Compose08.is_conn (map snd tr) = V.C06.Compose08.xproj xs ->
+  V.C06.Compose08.feasible_rest env0 (init ka T n0) tr = true ->
+  ~ In OPanic (concat (run (init ka T n0) tr)).
+Proof. intros L xs tr ka T n0 HX HP HR. exact (V.Link.C06_C08.no_panic_under_manager L xs tr ka T n0 HX HP HR). Qed.
+Print Assumptions C08_no_panic_under_manager.
+
+(* the same for the several-services composition: `mfeasible 2` splits into the connection part
+   (the manager's guarantee) and a cap-independent rest, and every service's stream is well-formed
+   under the manager *)
+Theorem C08_multi_feasible_split :
+  forall cap tr e m,
+  mfeasible cap e m tr =
+  V.Link.C06_C08.mfeasible_rest e m tr && V.C06.Compose08.conn_feasible cap e (V.Link.C06_C08.m_conn_evs tr).
+Proof. exact V.Link.C06_C08.mfeasible_split. Qed.
+Print Assumptions C08_multi_feasible_split.
+
+Theorem C08_multi_stream_wellformed_under_manager :
+  forall (L : V.Mgr.Model.limits) (xs : list V.C06.Compose08.xev) tr cap cfg n0 q k,
+  V.C06.Compose08.xtrace L V.C06.Compose08.x0 xs ->
+  V.Link.C06_C08.m_conn_evs tr = V.C06.Compose08.xproj xs ->
+  V.Link.C06_C08.mfeasible_rest env0 (minit cap cfg n0) tr = true ->
+  (k < length cfg)%nat ->
+  exists b, wf_run false (pevs q (comp_outs k (mrun (minit cap cfg n0) tr))) = Some b.
+Proof.
+  intros L xs tr cap cfg n0 q k HX HP HR LT.
+  exact (C08_multi_stream_wellformed tr cap cfg n0 q k
+           (V.Link.C06_C08.multi_feasible_under_manager L xs tr cap cfg n0 HX HP HR) LT).
+Qed.
+Print Assumptions C08_multi_stream_wellformed_under_manager.
+
+(* ---- on a node (coq/Link/C07_C06.v): the TransportService of protocol i of a node of connection
+   tasks (C07's node model: manager + accept futures + connection tasks + protocols). Its connection
+   events are what the node tells protocol i (`node_xevs`); the hypothesis `xtrace` of the corollaries
+   above is a theorem there (C06_C08_xtrace_on_node). Left: env_ok for what the transports deliver to the
+   manager, globally fresh connection ids, protocol i stays alive, and `feasible_rest`. ---- *)
+Theorem C08_stream_wellformed_on_node :
+  forall (i n : nat) (L : V.Mgr.Model.limits) (es : list V.C07.Model.nev) tr ka T n0 q,
+  (i < n)%nat ->
+  V.C07.Compose.node_env_trace L (V.C07.Model.node_init n) [] [] es ->
+  V.Link.C07_C06.fresh_ids [] es -> V.Link.C07_C06.no_die i es ->
+  filter V.C06.Compose08.is_conn (map snd tr) =
+    V.C06.Compose08.xproj (V.Link.C07_C06.node_xevs i L (V.C07.Model.node_init n) es) ->
+  V.C06.Compose08.feasible_rest env0 (init ka T n0) tr = true ->
+  exists b, wf_run false (pevs q (concat (run (init ka T n0) tr))) = Some b.
+Proof.
+  intros i n L es tr ka T n0 q H He Hf Hd HP HR.
+  exact (C08_stream_wellformed ka T n0 tr q (V.Link.C07_C06.node_feasible i n L es tr ka T n0 H He Hf Hd HP HR)).
+Qed.
+Print Assumptions C08_stream_wellformed_on_node.
+
+Theorem C08_alternation_on_node :
+  forall (i n : nat) (L : V.Mgr.Model.limits) (es : list V.C07.Model.nev) tr ka T n0 q,
+  (i < n)%nat ->
+  V.C07.Compose.node_env_trace L (V.C07.Model.node_init n) [] [] es ->
+  V.Link.C07_C06.fresh_ids [] es -> V.Link.C07_C06.no_die i es ->
+  filter V.C06.Compose08.is_conn (map snd tr) =
+    V.C06.Compose08.xproj (V.Link.C07_C06.node_xevs i L (V.C07.Model.node_init n) es) ->
+  V.C06.Compose08.feasible_rest env0 (init ka T n0) tr = true ->
+  alternates false (conn_evs q (concat (run (init ka T n0) tr))).
+Proof.
+  intros i n L es tr ka T n0 q H He Hf Hd HP HR.
+  exact (C08_alternation ka T n0 tr q (V.Link.C07_C06.node_feasible i n L es tr ka T n0 H He Hf Hd HP HR)).
+Qed.
+Print Assumptions C08_alternation_on_node.
